@@ -662,9 +662,18 @@ var unmarshalOptProbes = []struct {
 	{"ParseBytesWithLooseRFC4648", `"AQID\r\n"`, func() any { return new([]byte) }, jsonv1.ParseBytesWithLooseRFC4648},
 	{"UnmarshalArrayFromAnyLength", `[1,2]`, func() any { return new([3]int) }, jsonv1.UnmarshalArrayFromAnyLength},
 	{"MergeWithLegacySemantics", `{"k":{"b":2}}`, func() any { return &map[string]map[string]int{"k": {"a": 1}} }, jsonv1.MergeWithLegacySemantics},
-	{"MatchCaseInsensitiveNames", `{"A":1}`, func() any { return new(struct{ a, Aa int; B int `json:"a"` }) }, json.MatchCaseInsensitiveNames},
+	{"MatchCaseInsensitiveNames", `{"A":1}`, func() any {
+		return new(struct {
+			a, Aa int
+			B     int `json:"a"`
+		})
+	}, json.MatchCaseInsensitiveNames},
 	{"RejectUnknownMembers", `{"zz":1}`, func() any { return new(struct{ A int }) }, json.RejectUnknownMembers},
-	{"StringifyWithLegacySemantics", `{"A":"1"}`, func() any { return new(struct{ A *int `json:",string"` }) }, jsonv1.StringifyWithLegacySemantics},
+	{"StringifyWithLegacySemantics", `{"A":"1"}`, func() any {
+		return new(struct {
+			A *int `json:",string"`
+		})
+	}, jsonv1.StringifyWithLegacySemantics},
 	{"FormatByteArrayAsArray", `[1,2,3]`, func() any { return new([3]byte) }, jsonv1.FormatByteArrayAsArray},
 	{"FormatDurationAsNano", `1000`, func() any { return new(time.Duration) }, jsonv1.FormatDurationAsNano},
 }
